@@ -745,11 +745,14 @@ class CSemantics:
     def on_ternop(self, lhs, op, mid, rhs, location):
         """Handle ternary operator 'a ? b : c'"""
         lhs = self.pointer(lhs)
-        lhs = self.coerce(lhs, self.int_type)
-        # TODO: For now, we use the common type of b and c as the result
-        # But is this correct?
+        # The condition is compared against zero in its own type
+        # (coercing it to int would drop the upper bits of wider types).
+        lhs = self.check_condition(lhs)
         mid = self.pointer(mid)
         rhs = self.pointer(rhs)
+        # Arithmetic operands undergo the usual arithmetic conversions:
+        mid = self.promote(mid)
+        rhs = self.promote(rhs)
         common_type = self.get_common_type(mid.typ, rhs.typ, location)
         mid = self.coerce(mid, common_type)
         rhs = self.coerce(rhs, common_type)
